@@ -255,11 +255,12 @@ def render(vu):
             exlog.append({"fn": kv["fn"], "file": kv["file"], "line": line, "body_sha": sha(body), "rules": sorted(rules)})
         elif ln.startswith("//@struct-check "):
             kv = dict(tok.split("=", 1) for tok in shlex.split(ln)[1:])
-            check_struct(kv["file"], kv["name"], [f.strip() for f in kv["fields"].split(";") if f.strip()])
+            check_struct(kv["file"], kv["name"], [f.strip() for f in kv["fields"].split("|") if f.strip()])
             exlog.append({"struct": kv["name"], "file": kv["file"], "fields_checked": kv["fields"]})
         elif ln.startswith("//@const-check "):
             kv = dict(tok.split("=", 1) for tok in shlex.split(ln)[1:])
             src = read(os.path.join(REPO, kv["file"]))
+            kv["text"] = kv["text"].replace("\\n", "\n")
             if kv["text"] not in src:
                 raise Undecided("lost anchor: %r not found in %s" % (kv["text"], kv["file"]))
             exlog.append({"const": kv["text"], "file": kv["file"]})
